@@ -203,6 +203,19 @@ mut("m18-ttml-write-encode-error-only-logged", "C18", "a sink failure during TTM
 	}"""),
     ("ttml.go", 'import (\n\t"encoding/xml"\n\t"fmt"\n\t"io"', 'import (\n\t"encoding/xml"\n\t"fmt"\n\t"io"\n\t"log"'))
 
+mut("m18-ssa-stringwriter-fast-path-drops-error", "C18", "a sink that offers io.StringWriter and fails inside the styles block",
+    ("ssa.go", """		// Write
+		if _, err = o.Write(b); err != nil {
+			err = fmt.Errorf("astisub: writing styles block failed: %w", err)
+			return
+		}""", """		// Write
+		if sw, ok := o.(io.StringWriter); ok {
+			sw.WriteString(string(b))
+		} else if _, err = o.Write(b); err != nil {
+			err = fmt.Errorf("astisub: writing styles block failed: %w", err)
+			return
+		}"""))
+
 # ------------------------------------------------------------------ C19
 mut("m19-revert-d6-ssa-format-map-order", "C19", "styles with different attribute sets and a non-sorted map order",
     ("ssa.go", """		for _, id := range styleIDs {
